@@ -172,6 +172,8 @@ pub fn matrix(expression: Expression) -> Expression {
             }
 
             if matrix {
+                #[cfg(feature = "verif")]
+                crate::verif::hit(crate::verif::Arm::OPT_MATRIX_BUILT);
                 let mut columns: Vec<(String, u32)> = fields.into_iter().collect();
                 columns.sort_by(|x, y| x.1.cmp(&y.1));
                 let columns: Vec<String> = columns.into_iter().map(|(c, _)| c).collect();
@@ -411,6 +413,8 @@ pub fn matrix(expression: Expression) -> Expression {
 fn rewrite_search(search: Search) -> Search {
     match search {
         Search::Regex(regex, insensitive) => {
+            #[cfg(feature = "verif")]
+            crate::verif::hit(crate::verif::Arm::OPT_REWRITE_REGEX);
             let mut pattern = regex.as_str().to_owned();
             if let Some(tail) = pattern.strip_prefix(".*") {
                 pattern = tail.to_owned();
@@ -427,6 +431,8 @@ fn rewrite_search(search: Search) -> Search {
             )
         }
         Search::RegexSet(regex, insensitive) => {
+            #[cfg(feature = "verif")]
+            crate::verif::hit(crate::verif::Arm::OPT_REWRITE_REGEX_SET);
             let mut patterns = vec![];
             for pattern in regex.patterns() {
                 let mut pattern = pattern.to_owned();
@@ -537,14 +543,20 @@ fn shake_0(expression: Expression) -> Expression {
                     BoolSym::And,
                     Expression::BooleanGroup(BoolSym::And, right),
                 ) => {
+                    #[cfg(feature = "verif")]
+                    crate::verif::hit(crate::verif::Arm::OPT_SHAKE_FLATTEN);
                     left.extend(right);
                     shake_0(Expression::BooleanGroup(BoolSym::And, left))
                 }
                 (Expression::BooleanGroup(BoolSym::And, mut left), BoolSym::And, right) => {
+                    #[cfg(feature = "verif")]
+                    crate::verif::hit(crate::verif::Arm::OPT_SHAKE_FLATTEN);
                     left.push(right);
                     shake_0(Expression::BooleanGroup(BoolSym::And, left))
                 }
                 (left, BoolSym::And, Expression::BooleanGroup(BoolSym::And, right)) => {
+                    #[cfg(feature = "verif")]
+                    crate::verif::hit(crate::verif::Arm::OPT_SHAKE_FLATTEN);
                     let mut left = vec![left];
                     left.extend(right);
                     shake_0(Expression::BooleanGroup(BoolSym::And, left))
@@ -554,28 +566,42 @@ fn shake_0(expression: Expression) -> Expression {
                     BoolSym::Or,
                     Expression::BooleanGroup(BoolSym::Or, right),
                 ) => {
+                    #[cfg(feature = "verif")]
+                    crate::verif::hit(crate::verif::Arm::OPT_SHAKE_FLATTEN);
                     left.extend(right);
                     shake_0(Expression::BooleanGroup(BoolSym::Or, left))
                 }
                 (Expression::BooleanGroup(BoolSym::Or, mut left), BoolSym::Or, right) => {
+                    #[cfg(feature = "verif")]
+                    crate::verif::hit(crate::verif::Arm::OPT_SHAKE_FLATTEN);
                     left.push(right);
                     shake_0(Expression::BooleanGroup(BoolSym::Or, left))
                 }
                 (left, BoolSym::Or, Expression::BooleanGroup(BoolSym::Or, right)) => {
+                    #[cfg(feature = "verif")]
+                    crate::verif::hit(crate::verif::Arm::OPT_SHAKE_FLATTEN);
                     let mut left = vec![left];
                     left.extend(right);
                     shake_0(Expression::BooleanGroup(BoolSym::Or, left))
                 }
                 (Expression::BooleanExpression(x, BoolSym::And, y), BoolSym::And, z) => {
+                    #[cfg(feature = "verif")]
+                    crate::verif::hit(crate::verif::Arm::OPT_SHAKE_FLATTEN);
                     shake_0(Expression::BooleanGroup(BoolSym::And, vec![*x, *y, z]))
                 }
                 (x, BoolSym::And, Expression::BooleanExpression(y, BoolSym::And, z)) => {
+                    #[cfg(feature = "verif")]
+                    crate::verif::hit(crate::verif::Arm::OPT_SHAKE_FLATTEN);
                     shake_0(Expression::BooleanGroup(BoolSym::And, vec![x, *y, *z]))
                 }
                 (Expression::BooleanExpression(x, BoolSym::Or, y), BoolSym::Or, z) => {
+                    #[cfg(feature = "verif")]
+                    crate::verif::hit(crate::verif::Arm::OPT_SHAKE_FLATTEN);
                     shake_0(Expression::BooleanGroup(BoolSym::Or, vec![*x, *y, z]))
                 }
                 (x, BoolSym::Or, Expression::BooleanExpression(y, BoolSym::Or, z)) => {
+                    #[cfg(feature = "verif")]
+                    crate::verif::hit(crate::verif::Arm::OPT_SHAKE_FLATTEN);
                     shake_0(Expression::BooleanGroup(BoolSym::Or, vec![x, *y, *z]))
                 }
                 // FIXME: This will cause false positives due to how true/false/missing is
@@ -639,6 +665,8 @@ fn shake_1(expression: Expression) -> Expression {
                     shaken => scratch.push(shaken),
                 };
             }
+            #[cfg(feature = "verif")]
+            crate::verif::hit_if(nested.len() > 1, crate::verif::Arm::OPT_MERGE_MAP_MULTI_KEY);
             for (field, expressions) in nested {
                 let shaken = if expressions.len() == 1 {
                     shake_1(
@@ -648,6 +676,8 @@ fn shake_1(expression: Expression) -> Expression {
                             .expect("could not get expression"),
                     )
                 } else {
+                    #[cfg(feature = "verif")]
+                    crate::verif::hit(crate::verif::Arm::OPT_SHAKE_AND_NESTED_MERGED);
                     shake_1(Expression::Match(
                         Match::All,
                         Box::new(Expression::BooleanGroup(BoolSym::Or, expressions)),
@@ -739,6 +769,8 @@ fn shake_1(expression: Expression) -> Expression {
                         _ => rest.push(shaken),
                     }
                 }
+                #[cfg(feature = "verif")]
+                crate::verif::hit_if(needles.len() + nested.len() + patterns.len() > 1, crate::verif::Arm::OPT_MERGE_MAP_MULTI_KEY);
 
                 for ((field, cast, insensitive), searches) in needles {
                     if !insensitive && searches.len() == 1 {
@@ -766,6 +798,8 @@ fn shake_1(expression: Expression) -> Expression {
                             }
                         };
                     } else {
+                        #[cfg(feature = "verif")]
+                        crate::verif::hit(crate::verif::Arm::OPT_SHAKE_OR_NEEDLES_MERGED);
                         let (context, needles): (Vec<_>, Vec<_>) = searches.into_iter().unzip();
                         let expression = Expression::Search(
                             Search::AhoCorasick(
@@ -795,6 +829,8 @@ fn shake_1(expression: Expression) -> Expression {
                                 .expect("could not get expression"),
                         )
                     } else {
+                        #[cfg(feature = "verif")]
+                        crate::verif::hit(crate::verif::Arm::OPT_SHAKE_OR_NESTED_MERGED);
                         shake_1(Expression::BooleanGroup(BoolSym::Or, expressions))
                     };
                     rest.push(Expression::Nested(field, Box::new(shaken)));
@@ -816,6 +852,8 @@ fn shake_1(expression: Expression) -> Expression {
                         );
                         regex.push(expression);
                     } else {
+                        #[cfg(feature = "verif")]
+                        crate::verif::hit(crate::verif::Arm::OPT_SHAKE_OR_PATTERNS_MERGED);
                         let expression = Expression::Search(
                             Search::RegexSet(
                                 RegexSetBuilder::new(patterns)
